@@ -296,6 +296,16 @@ func c11FixedCases() []fxCase {
 			tables: [][]byte{fxCat(fxName(fxNS("", "NAA0"), fxOne...), fxMethod(fxNS("", "MAA1"), 0,
 				fxPkg([]byte{byte(pOpWhile)}, []byte{byte(pOpOne)}, []byte{byte(pOpToHexString), 0x0a, 0x51, byte(pOpDerefOf)}, fxNS("", "NAA0"))))},
 			check: fxOperands("\\MAA1", pOpDerefOf, 1)},
+		{id: "F12-absolute-name-inside-a-late-scope", what: "Device(DAA0){} Scope(DAA0){Device(\\DAA1){}} Scope(DAA1){Device(\\DAA2){}} ... Scope(DAB3){OpRegion(\\RAA0,...)}: an absolutely named object does not have to wait until the chain of Scope directives around it has been resolved link by link (more links than the resolve-pass limit)",
+			tables: [][]byte{func() []byte {
+				names := []string{"DAA0", "DAA1", "DAA2", "DAB0", "DAB1", "DAB2", "DAB3", "DAB4"}
+				t := fxDev(fxNS("", names[0]))
+				for i := 0; i+1 < len(names); i++ {
+					t = fxCat(t, fxScope(fxNS("", names[i]), fxDev(fxNS("\\", names[i+1]))))
+				}
+				return fxCat(t, fxScope(fxNS("", names[len(names)-1]), fxCat(c11OpBytes(pOpOpRegion), fxNS("\\", "RAA0"), []byte{0, 0x0a, 0, 0x0a, 0x10})))
+			}()},
+			check: fxWant("\\DAA0", "\\DAA1", "\\DAB0", "\\DAB4", "\\RAA0")},
 		// ---- open findings (expected to fail with the recorded observation) ----
 		{id: "K15b-acquire-derefof-timeout", what: "Acquire(DerefOf(Arg0), 0xffff): the operands of DerefOf are left for the second pass, the timeout word is read from the bytes that follow DerefOf's opcode", tables: [][]byte{fxMethod(fxNS("", "MAA1"), 1, fxCat(c11OpBytes(pOpAcquire), []byte{byte(pOpDerefOf), byte(pOpArg0), 0xff, 0xff}))}, check: fxOperands("\\MAA1", pOpAcquire, 2)},
 		{id: "K15c-condrefof-type6-then-second-name", what: "CondRefOf(DerefOf(Arg0), RefOf(Local0)): DerefOf's operand is taken as CondRefOf's second name, the real second name is left behind as a statement", tables: [][]byte{fxMethod(fxNS("", "MAA1"), 1, fxCat(c11OpBytes(pOpCondRefOf), []byte{byte(pOpDerefOf), byte(pOpArg0), byte(pOpRefOf), byte(pOpLocal0)}))}, check: fxOperands("\\MAA1", pOpCondRefOf, 2)},
